@@ -16,7 +16,9 @@ import (
 	"math/rand/v2"
 	"reflect"
 	"regexp"
+	"runtime"
 	"strings"
+	"sync"
 
 	zasn1 "github.com/zmap/zcrypto/encoding/asn1"
 
@@ -28,6 +30,7 @@ func init() {
 		Rule: "struct types built with reflect.StructOf: 1..6 exported fields, nesting <= 3, field kinds int/int32/int64/*big.Int/bool/string/[]byte/ObjectIdentifier/BitString/time.Time/Enumerated/Flag/RawValue/struct/slice of these/eight named ...SET slice types, " +
 			"each field with a random legal combination of optional, default:n, tag:n (0..40, both identifier forms) implicit or explicit, application/private, set, omitempty, ia5|printable|numeric|utf8, utc|generalized; " +
 			"the generator keeps an optional field from being followed by a field with the same effective identifier; values random within the type's documented domain and biased to boundaries; some cases use Marshal/UnmarshalWithParams with top-level parameters; " +
+			"after the single-value round trips of a type, 2..6 cases (this type and the previous one) are marshalled first, the returned slices held as returned, then each decoded and compared with its own original, held slices and decoded values re-checked; Marshal twice must agree; for one type in eight 4..6 goroutines run Marshal/yield/Unmarshal/compare concurrently; " +
 			"non-trivial = (type, value) whose Marshal succeeded so that the round trip was evaluated; distinct = distinct generated type descriptions (with tags)",
 		MinNontrivial:         7000,
 		MinNontrivialThorough: 100000,
@@ -45,8 +48,15 @@ func init() {
 var reDigits = regexp.MustCompile(`-?\d+`)
 
 type c18 struct {
-	c   *core.Ctx
-	lim limiter
+	c     *core.Ctx
+	lim   limiter
+	carry []c18held // cases of the previous type, so that a batch mixes types
+}
+
+type c18held struct {
+	cs   c18case
+	id   string
+	desc string
 }
 
 type c18case struct {
@@ -246,14 +256,27 @@ func runC18(c *core.Ctx) {
 	k := &c18{c: c}
 	ntypes := c.Pick(16000, 320000)
 	nvals := c.Pick(8, 20)
+	for _, ns := range namedSets { // shared element types: fill their reflect caches before any goroutine runs
+		ns.elem.goType(flavZ)
+		ns.elem.goType(flavG)
+	}
 	for idx := c.Shard; idx < ntypes; idx += c.NShards {
 		only := -1
 		if c.OnlyCase != "" {
 			var ti, vi int
-			if n, _ := fmt.Sscanf(c.OnlyCase, "type-%d/value-%d", &ti, &vi); n != 2 || ti != idx {
+			if n, _ := fmt.Sscanf(c.OnlyCase, "type-%d/value-%d", &ti, &vi); n == 2 {
+				if ti != idx {
+					continue
+				}
+				only = vi
+			} else if n, _ := fmt.Sscanf(c.OnlyCase, "type-%d/batch", &ti); n == 1 {
+				// a batch mixes this type's values with two of the previous type of the shard
+				if idx != ti && idx != ti-c.NShards {
+					continue
+				}
+			} else {
 				continue
 			}
-			only = vi
 		}
 		k.oneType(idx, nvals, only)
 	}
@@ -277,6 +300,7 @@ func (k *c18) oneType(idx, nvals, only int) {
 	}
 	countKinds(c, t, 0)
 	vg := &vgen{rng: rng}
+	var held []c18held
 	for vi := 0; vi < nvals; vi++ {
 		v := &val{}
 		for _, f := range t.fields {
@@ -295,6 +319,9 @@ func (k *c18) oneType(idx, nvals, only int) {
 			c.Count("round_trips_evaluated", 1)
 			c.Max("der_bytes", len(res.der))
 		}
+		if res.stage == "" {
+			held = append(held, c18held{cs, id, desc})
+		}
 		if res.stage != "" {
 			k.report(cs, res, id, desc)
 		} else if c.WantSample() && len(desc) < 500 && vi == 0 {
@@ -304,6 +331,206 @@ func (k *c18) oneType(idx, nvals, only int) {
 			k.differential(cs, res, desc)
 		}
 	}
+	if only >= 0 || len(held) == 0 {
+		return
+	}
+	// batch of 2..6 cases: some of this type plus up to two of the previous type
+	n := 2 + rng.IntN(5)
+	batch := append([]c18held{}, k.carry...)
+	for _, h := range held {
+		if len(batch) < n {
+			batch = append(batch, h)
+		}
+	}
+	bid := fmt.Sprintf("type-%d/batch", idx)
+	if len(batch) >= 2 {
+		k.batchLeg(batch, bid)
+	}
+	if (idx/c.NShards)%8 == 0 {
+		k.concurrentLeg(batch, 4+rng.IntN(3), bid)
+	}
+	k.carry = held
+	if len(k.carry) > 2 {
+		k.carry = k.carry[len(k.carry)-2:]
+	}
+}
+
+func marshalZ(cs c18case, v reflect.Value) ([]byte, error) {
+	if cs.params == "" {
+		return zasn1.Marshal(v.Interface())
+	}
+	return zasn1.MarshalWithParams(v.Interface(), cs.params)
+}
+
+func unmarshalZ(cs c18case, der []byte) (reflect.Value, []byte, error) {
+	out := reflect.New(cs.t.goType(flavZ))
+	var rest []byte
+	var err error
+	if cs.params == "" {
+		rest, err = zasn1.Unmarshal(der, out.Interface())
+	} else {
+		rest, err = zasn1.UnmarshalWithParams(der, out.Interface(), cs.params)
+	}
+	return out.Elem(), rest, err
+}
+
+func (k *c18) batchFail(key, detail string, h c18held, bid string, der []byte) {
+	k.c.Count("divergences", 1)
+	if !k.lim.first(key) {
+		return
+	}
+	k.c.Violation(key, detail+"\nmember "+h.id+" of "+bid+"\ntype: "+abbreviate(h.desc, 2500)+"\nparams: "+h.cs.params+"\nDER: "+abbreviate(hx(der), 3000), bid,
+		map[string]any{"case": bid, "member": h.id, "type": abbreviate(h.desc, 4000), "params": h.cs.params, "der_hex": hx(der)})
+}
+
+// batchLeg: the oracle is the same round trip, on each value's own encoding, but all values are
+// marshalled before any is decoded and the slices Marshal returned are kept as returned. An
+// encoder or decoder that hands out storage a later call reuses diverges here only.
+func (k *c18) batchLeg(batch []c18held, bid string) {
+	c := k.c
+	n := len(batch)
+	vals := make([]reflect.Value, n)
+	want := make([]string, n)
+	der := make([][]byte, n)
+	snap := make([][]byte, n)
+	dec := make([]reflect.Value, n)
+	got := make([]string, n)
+	bad := make([]bool, n)
+	pi := core.Guard(func() {
+		for i, h := range batch {
+			vals[i] = mkValue(h.cs.t, h.cs.v, flavZ)
+			want[i] = canon(h.cs.t, nil, vals[i])
+			d, err := marshalZ(h.cs, vals[i])
+			if err != nil {
+				bad[i] = true
+				k.batchFail("batch:marshal-error-on-a-value-that-marshalled-alone", err.Error(), h, bid, nil)
+				continue
+			}
+			der[i], snap[i] = d, append([]byte{}, d...)
+		}
+		for i, h := range batch {
+			if bad[i] {
+				continue
+			}
+			if !bytes.Equal(der[i], snap[i]) {
+				bad[i] = true
+				k.batchFail("batch:marshal-output-changed-by-later-marshal-calls", "the slice returned by Marshal held "+abbreviate(hx(snap[i]), 600)+" when returned and holds "+abbreviate(hx(der[i]), 600)+" after other values were marshalled", h, bid, snap[i])
+				continue
+			}
+			v, rest, err := unmarshalZ(h.cs, der[i])
+			switch {
+			case err != nil:
+				bad[i] = true
+				k.batchFail("batch:unmarshal-error-when-decoding-is-deferred", err.Error(), h, bid, snap[i])
+			case len(rest) != 0:
+				bad[i] = true
+				k.batchFail("batch:trailing-bytes-when-decoding-is-deferred", hx(rest), h, bid, snap[i])
+			default:
+				dec[i] = v
+				got[i] = canon(h.cs.t, nil, v)
+				if got[i] != want[i] {
+					bad[i] = true
+					k.batchFail("batch:value-mismatch-when-decoding-is-deferred", "marshalled: "+abbreviate(want[i], 1200)+"\ndecoded:    "+abbreviate(got[i], 1200), h, bid, snap[i])
+				}
+			}
+		}
+		for i, h := range batch {
+			if bad[i] {
+				continue
+			}
+			if !bytes.Equal(der[i], snap[i]) {
+				k.batchFail("batch:marshal-output-changed-by-unmarshal-calls", "now "+abbreviate(hx(der[i]), 600), h, bid, snap[i])
+			}
+			if now := canon(h.cs.t, nil, dec[i]); now != got[i] {
+				k.batchFail("batch:decoded-value-changed-by-later-unmarshal-calls", "when decoded: "+abbreviate(got[i], 1200)+"\nnow:          "+abbreviate(now, 1200), h, bid, snap[i])
+			}
+		}
+		// Marshal(v) twice: equal, and the first result is not disturbed by the second call
+		h := batch[n-1]
+		if !bad[n-1] {
+			d1, err1 := marshalZ(h.cs, vals[n-1])
+			s1 := append([]byte{}, d1...)
+			d2, err2 := marshalZ(h.cs, vals[n-1])
+			switch {
+			case err1 != nil || err2 != nil:
+				k.batchFail("batch:marshal-error-on-a-value-that-marshalled-alone", fmt.Sprint(err1, err2), h, bid, nil)
+			case !bytes.Equal(d1, s1):
+				k.batchFail("batch:first-marshal-output-changed-by-second-marshal", "first result now "+abbreviate(hx(d1), 600), h, bid, s1)
+			case !bytes.Equal(d2, s1):
+				k.batchFail("batch:second-marshal-of-the-same-value-differs", "second "+abbreviate(hx(d2), 600), h, bid, s1)
+			}
+		}
+	})
+	if pi != nil {
+		k.batchFail("batch:"+pi.Key, pi.Value+"\n"+pi.Stack, batch[0], bid, nil)
+	}
+	c.Count("batches", 1)
+	c.Count("batch_members", n)
+}
+
+// concurrentLeg: g goroutines, each with its own value: Marshal, yield, Unmarshal, compare.
+func (k *c18) concurrentLeg(batch []c18held, g int, bid string) {
+	type outcome struct {
+		key, detail string
+		h           c18held
+		der         []byte
+	}
+	res := make([][]outcome, g)
+	var wg sync.WaitGroup
+	start := make(chan struct{})
+	for gi := 0; gi < g; gi++ {
+		wg.Add(1)
+		go func(gi int) {
+			defer wg.Done()
+			h := batch[gi%len(batch)]
+			<-start
+			for rep := 0; rep < 3; rep++ {
+				var o *outcome
+				pi := core.Guard(func() {
+					v := mkValue(h.cs.t, h.cs.v, flavZ)
+					want := canon(h.cs.t, nil, v)
+					d, err := marshalZ(h.cs, v)
+					if err != nil {
+						o = &outcome{"concurrent:marshal-error", err.Error(), h, nil}
+						return
+					}
+					s := append([]byte{}, d...)
+					runtime.Gosched()
+					if !bytes.Equal(d, s) {
+						o = &outcome{"concurrent:marshal-output-changed-by-marshal-calls-of-other-goroutines", "now " + abbreviate(hx(d), 600), h, s}
+						return
+					}
+					dv, rest, err := unmarshalZ(h.cs, d)
+					runtime.Gosched()
+					switch {
+					case err != nil:
+						o = &outcome{"concurrent:unmarshal-error", err.Error(), h, s}
+					case len(rest) != 0:
+						o = &outcome{"concurrent:trailing-bytes", hx(rest), h, s}
+					default:
+						if got := canon(h.cs.t, nil, dv); got != want {
+							o = &outcome{"concurrent:value-mismatch", "marshalled: " + abbreviate(want, 1200) + "\ndecoded:    " + abbreviate(got, 1200), h, s}
+						}
+					}
+				})
+				if pi != nil {
+					o = &outcome{"concurrent:" + pi.Key, pi.Value + "\n" + pi.Stack, h, nil}
+				}
+				if o != nil {
+					res[gi] = append(res[gi], *o)
+				}
+			}
+		}(gi)
+	}
+	close(start)
+	wg.Wait()
+	for _, rs := range res {
+		for _, o := range rs {
+			k.batchFail(o.key, o.detail, o.h, bid, o.der)
+		}
+	}
+	k.c.Count("concurrent_rounds", 1)
+	k.c.Count("concurrent_goroutine_round_trips", 3*g)
 }
 
 func countKinds(c *core.Ctx, t *ftype, depth int) {
